@@ -175,7 +175,8 @@ class ProtocolContext:
             ), f"{self}: Coding error"  # TODO: remove
 
             if timed_out:
-                assert self._cmd is not None, f"{self}: Coding error"  # mypy hint
+                if self._cmd is None or not isinstance(self._state, WantEcho):
+                    return  # superseded: the state changed before this deferred call ran
                 self._send_cmd(self._cmd, is_retry=True)
 
             if isinstance(self._state, IsInIdle):
